@@ -375,13 +375,45 @@ def format_array_case(draw):
     return {"kind": "lines", "lines": lines, "expect_ok": False, "what": "format_on_array"}
 
 
+@st.composite
+def format_multiline_case(draw):
+    """an anchored !format constrains the WHOLE text of a block value, not its first line"""
+    first = draw(st.sampled_from(["abc", "hello", "z"]))
+    ok = draw(st.booleans())
+    rest = draw(st.sampled_from(["def", "xyz"])) if ok else draw(st.sampled_from(["DEF 123", "Abc", "a1"]))
+    regex = "^[a-z]+\\n[a-z]+$" if ok else draw(st.sampled_from(["^[a-z]+$", "^[a-z]+\\n[a-z]+$"]))
+    lines = ['t str = """', first, rest, '"""', f"  !format '{regex}'"]
+    return {"kind": "lines", "lines": lines, "expect_ok": ok, "what": "format_multiline"}
+
+
+@st.composite
+def mixed_joiners_case(draw):
+    """&& binds tighter than ||, also in a !condition: 'A || B && C' with A true holds whatever B && C is, and
+    'A && B || C' with C true holds as well"""
+    x = draw(st.integers(2, 50))
+    T = lambda: draw(st.sampled_from([f"{{?}} > {x - 1}", f"{{?}} == {x}", f"{{?}} < {x + 5}"]))
+    Fa = lambda: draw(st.sampled_from([f"{{?}} > {x + 10}", f"{{?}} < 0", f"{{?}} == {x + 1}"]))
+    form = draw(st.sampled_from(["T||X&&F", "F&&X||T", "F||T&&F", "T&&F||F", "F||F&&T", "T||F&&F"]))
+    expr, ok = {
+        "T||X&&F": (f"{T()} || {draw(st.sampled_from([T(), Fa()]))} && {Fa()}", True),
+        "F&&X||T": (f"{Fa()} && {draw(st.sampled_from([T(), Fa()]))} || {T()}", True),
+        "F||T&&F": (f"{Fa()} || {T()} && {Fa()}", False),
+        "T&&F||F": (f"{T()} && {Fa()} || {Fa()}", False),
+        "F||F&&T": (f"{Fa()} || {Fa()} && {T()}", False),
+        "T||F&&F": (f"{T()} || {Fa()} && {Fa()}", True),
+    }[form]
+    lines = [f"x int = {x}", f'  !condition ("{expr}")']
+    return {"kind": "lines", "lines": lines, "expect_ok": ok, "what": "mixed_joiners"}
+
+
 def strategies(tier):
     return {"numeric": (numeric_case(), 2500, 60000), "string": (string_case(), 800, 20000), "bool": (bool_case(), 200, 4000),
             "array": (array_case(), 600, 12000), "declaration": (decl_case(), 150, 2000),
             "imported": (imported_case(), 300, 6000), "same_literal": (same_literal_case(), 300, 6000),
             "cross_node": (cross_node_case(), 400, 8000),
             "two_conditions": (two_conditions_case(), 300, 6000), "array_redef": (array_redef_case(), 300, 6000),
-            "custom_unit_options": (custom_unit_options_case(), 250, 5000), "format_array": (format_array_case(), 150, 3000)}
+            "custom_unit_options": (custom_unit_options_case(), 250, 5000), "format_array": (format_array_case(), 150, 3000),
+            "format_multiline": (format_multiline_case(), 150, 3000), "mixed_joiners": (mixed_joiners_case(), 300, 6000)}
 
 
 # --------------------------------------------------------------------------- rendering
